@@ -387,7 +387,7 @@ func (c *codecCtx) decCase(mi *msgInfo, b []byte, merge, discard bool, init *V) 
 	case err != nil:
 		res = "err"
 	default:
-		res = "ok " + si.fromGo(mi, reflect.ValueOf(q)).String()
+		res = "ok " + si.foreignNorm(mi, si.fromGo(mi, reflect.ValueOf(q))).String()
 	}
 	flags := ""
 	if merge {
@@ -410,7 +410,7 @@ func (c *codecCtx) decCase(mi *msgInfo, b []byte, merge, discard bool, init *V) 
 		for i := range in {
 			in[i] ^= 0xFF
 		}
-		after := "ok " + si.fromGo(mi, reflect.ValueOf(q)).String()
+		after := "ok " + si.foreignNorm(mi, si.fromGo(mi, reflect.ValueOf(q))).String()
 		o.withKey("alias/"+si.id+"."+string(mi.md.Name())).prop("C07", after == res, fmt.Sprintf("the message decoded from %s into %s.%s shares memory with the input buffer: after overwriting the input it reads %s, before %s", hx(b), si.id, mi.md.Name(), after, res))
 		for i := range in {
 			in[i] ^= 0xFF
